@@ -35,7 +35,7 @@ func runCreateOpts(r *vf.Run, big, verbose bool, out, in string) childResult {
 		// three classified hangs are witness enough; do not spend a watchdog period on each further one
 		return childResult{Code: -2, Stderr: "skipped after three hangs"}
 	}
-	res := runChild(r, binPath("updog"), append(args, in), childOpts{Timeout: 90 * time.Second})
+	res := runChild(r, binPath("updog"), append(args, in), childOpts{Timeout: 90 * time.Second, TmpDir: pickTmp(r, out)})
 	if res.TimedOut {
 		atomic.AddInt64(&c19Hangs, 1)
 	}
